@@ -510,6 +510,32 @@ def flat_min(x, terms, name='min'):
         terms.add(repr(x))
 
 
+def ring_range_ok(rng, base, cdim_c):
+    """The offsets of one axis: -r..=r, or that range intersected with the offsets d for which base + d is a grid index of this axis (0 <= base + d <
+    cdim): a cell outside the grid is no cell (get_cid gives None for it), so dropping exactly those offsets changes nothing."""
+    if isinstance(rng, str):
+        return 'RangeInclusive::new(-r, r)' in rng
+    txt = repr(rng)
+    if 'RangeInclusive::new(-r, r)' in txt:
+        return True
+    at = rng.atom if isinstance(rng, I.Sym) else None
+    for _ in range(3):          # look through into_iter
+        if at is not None and at.kind == 'app' and str(at.name).endswith('into_iter') and len(at.args) == 1 and isinstance(at.args[0], I.Sym):
+            at = at.args[0].atom
+    if at is None or at.kind != 'app' or not str(at.name).endswith('RangeInclusive::<Idx>::new') and not str(at.name).endswith('RangeInclusive::new'):
+        return False
+    if len(at.args) != 2 or not all(isinstance(x, RF) for x in at.args):
+        return False
+    lo, hi = at.args
+    r = RF.sym('r')
+    tl, th = set(), set()
+    flat_min(lo, tl, 'max')
+    flat_min(hi, th, 'min')
+    lo_ok = tl == {repr(-r)} or tl == {repr(-r), repr(-base)}
+    hi_ok = th == {repr(r)} or th == {repr(r), repr(cdim_c - RF.const(1) - base)}
+    return lo_ok and hi_ok
+
+
 def r3(ctx, F, rule, sfx):
     rb = F.body_by_suffix('space::Space::get_r_ring')
     g = F.body_by_suffix('space::Space::get_cid')
@@ -536,7 +562,7 @@ def r3(ctx, F, rule, sfx):
     else:
         for x in nexts:
             rec, li = loop_record_of(ip, x)
-            counters.append((as_rf(I.get_field(I.downcast(x.result, 'Some'), 0, 'i32')), repr(I.frozen(rec['init'][li]))))
+            counters.append((as_rf(I.get_field(I.downcast(x.result, 'Some'), 0, 'i32')), I.frozen(rec['init'][li])))
     if len(ev) != 1:
         raise AnalysisIncomplete('get_cid calls in get_r_ring: %d' % len(ev))
     e = ev[0]
@@ -554,8 +580,8 @@ def r3(ctx, F, rule, sfx):
             ctx.bad(rule, 'ring-offset-%s%s' % (AX[c], sfx), repr(a)[:100], 'cell index + d with d in -r..=r', w, key_extra='offset:%s' % AX[c])
             continue
         it, rng, rest = found
-        ok = 'RangeInclusive::new(-r, r)' in rng
-        ctx.check(rule, 'ring-offset-%s%s' % (AX[c], sfx), ok, 'd over %s' % rng[-60:], 'd in -r..=r', w, key_extra='range:%s' % AX[c])
+        ok = ring_range_ok(rng, rest, as_rf(I.get_field(I.get_field(sp, 'cdim'), AX[c], 'u32')))
+        ctx.check(rule, 'ring-offset-%s%s' % (AX[c], sfx), ok, 'd over %s' % repr(rng)[-90:], 'd in -r..=r (or that range cut to the offsets that stay inside the grid on this axis: max(-r, -i) ..= min(r, cdim - 1 - i))', w, key_extra='range:%s' % AX[c])
         offs.append((c, rest, it))
     # base indices decode cid consistently with get_cid
     if len(offs) == 3:
@@ -642,7 +668,15 @@ def r5(ctx, F, rule, sfx):
     notcont = lambda e: any(repr(g).startswith('!b:call:geometry::Sphere::contains(') for g in e.guard)
     bp = [e for e in pushes if repr(e.fargs[1]) == pt and notcont(e)]
     ok = len(bp) == 1 and len(rec) == 2 and any(repr(g).startswith('!b:call:geometry::Sphere::contains(') for g in bp[0].guard) and any(repr(g).startswith('!b:call:geometry::Sphere::contains(') for g in rec[1].guard)
-    ctx.check(rule, 'point-joins-boundary-iff-not-contained%s' % sfx, ok, '%d boundary push(es)' % len(bp), 'boundary.push(point); re-solve — exactly when !solution.contains(point)', w, key_extra='retry')
+    # ... and under no further condition: "not contained" alone decides (a point that is not in the sphere of the rest lies on the boundary of the
+    # minimal sphere — Welzl's lemma has no exception for points close to, or equal to, a boundary point)
+    extra = []
+    if ok:
+        # (the conditions of the first recursive call are those of "not a base case")
+        for e in (bp[0], rec[1]):
+            extra += [repr(g) for g in e.guard if repr(g) not in {repr(x) for x in rec[0].guard} and not repr(g).startswith('!b:call:geometry::Sphere::contains(')]
+        ok = not extra
+    ctx.check(rule, 'point-joins-boundary-iff-not-contained%s' % sfx, ok, '%d boundary push(es)%s' % (len(bp), '; further conditions: %s' % [x[:80] for x in extra[:2]] if extra else ''), 'boundary.push(point); re-solve — exactly when !solution.contains(point)', w, key_extra='retry')
     # restoration: boundary.pop() on the retry path, points.push(point) on every non-base path
     bpop = [e for e in pops if 'bounding_sphere_recursive' in repr(e.fargs[0]) and any(repr(g).startswith('!b:call:geometry::Sphere::contains(') for g in e.guard)]
     ppush = [e for e in pushes if repr(e.fargs[1]) == pt and e not in bp]
